@@ -1,6 +1,7 @@
 package props
 
 import (
+	"encoding/json"
 	"fmt"
 	"os"
 	"strings"
@@ -55,5 +56,101 @@ func TestIdemSurvey(t *testing.T) {
 	})
 	for k, n := range seen {
 		fmt.Printf("IDEMCOUNT %-60s %d\n", k, n)
+	}
+}
+
+// TestIdemReplay (development aid): VERIF_IDEM_REPLAY=<replay file> prints how the attribution goes.
+func TestIdemReplay(t *testing.T) {
+	f := os.Getenv("VERIF_IDEM_REPLAY")
+	if f == "" {
+		t.Skip()
+	}
+	b, err := os.ReadFile(f)
+	if err != nil {
+		t.Fatal(err)
+	}
+	var doc struct {
+		Case json.RawMessage `json:"case"`
+	}
+	if err := json.Unmarshal(b, &doc); err != nil {
+		t.Fatal(err)
+	}
+	c, err := loadFmtCase(doc.Case)
+	if err != nil {
+		t.Fatal(err)
+	}
+	v, _ := parseVCL(c.Src)
+	r1 := runFormat(v, c.Conf)
+	v2, _ := parseVCL(r1.out)
+	r2 := runFormat(v2, c.Conf)
+	fmt.Println("signature:", idemKeyBySignature(c, r1.out, r2.out), "positional:", idemKeyPositional(c, r1.out, r2.out))
+	h, ok := withoutUnstableFeatures(c)
+	fmt.Println("healed ok:", ok)
+	hv, err := parseVCL(h.Src)
+	fmt.Println("healed parses:", err)
+	if err == nil {
+		h1 := runFormat(hv, h.Conf)
+		hv2, err2 := parseVCL(h1.out)
+		fmt.Println("healed pass1 parses:", err2)
+		if err2 == nil {
+			h2 := runFormat(hv2, h.Conf)
+			fmt.Println("healed idempotent:", h1.out == h2.out)
+			if h1.out != h2.out {
+				fmt.Println(lineDiff(h1.out, h2.out))
+			}
+		}
+	}
+}
+
+func TestIdemReplayDiff(t *testing.T) {
+	f := os.Getenv("VERIF_IDEM_REPLAY")
+	if f == "" {
+		t.Skip()
+	}
+	b, _ := os.ReadFile(f)
+	var doc struct {
+		Case json.RawMessage `json:"case"`
+	}
+	json.Unmarshal(b, &doc)
+	c, _ := loadFmtCase(doc.Case)
+	v, _ := parseVCL(c.Src)
+	r1 := runFormat(v, c.Conf)
+	v2, _ := parseVCL(r1.out)
+	r2 := runFormat(v2, c.Conf)
+	a, bb := noWS(r1.out), noWS(r2.out)
+	i := firstDiffIndex(a, bb)
+	lo := i - 60
+	if lo < 0 {
+		lo = 0
+	}
+	fmt.Printf("noWS equal=%v at %d\n1: %q\n2: %q\n", a == bb, i, a[lo:min(len(a), i+60)], bb[lo:min(len(bb), i+60)])
+}
+
+func TestIdemReplayWords(t *testing.T) {
+	f := os.Getenv("VERIF_IDEM_REPLAY")
+	if f == "" {
+		t.Skip()
+	}
+	b, _ := os.ReadFile(f)
+	var doc struct {
+		Case json.RawMessage `json:"case"`
+	}
+	json.Unmarshal(b, &doc)
+	c, _ := loadFmtCase(doc.Case)
+	v, _ := parseVCL(c.Src)
+	r1 := runFormat(v, c.Conf)
+	v2, _ := parseVCL(r1.out)
+	r2 := runFormat(v2, c.Conf)
+	cnt := map[string]int{}
+	for _, w := range strings.Fields(r1.out) {
+		cnt[w]++
+	}
+	for _, w := range strings.Fields(r2.out) {
+		cnt[w]--
+	}
+	for w, n := range cnt {
+		if n != 0 {
+			fmt.Printf("word %q: %+d\n", w, n)
+		}
 	}
 }
